@@ -4,7 +4,7 @@
    run (tie T); everything else is tied to /repo by harness/drivers/C06.py (tie C). *)
 From Coq Require Import ZArith List Bool String.
 From GPV Require Import Base.PySlice Models.C11_mtmvn Models.C06_index Models.C06_lazyslice
-     Gen.LazySlice_gen Proofs.C06_lazyslice Proofs.C06_index.
+     Gen.LazySlice_gen Proofs.C06_lazyslice Proofs.C06_index Models.C06_bcast Proofs.C06_bcast.
 Import ListNotations.
 
 (* ---- (i) gather-style indexing of an entrywise kernel matrix *)
@@ -217,3 +217,47 @@ Proof.
   intros. split; [apply getitem_eval_same_columns|apply expand_eval_same_columns].
 Qed.
 Print Assumptions active_dims_same_columns_after_getitem_and_expand.
+
+(* ---- batch broadcasting between x1, x2 and the kernel parameters (Models/C06_bcast.v) *)
+
+(* the batch shape of kernel(x1, x2) = broadcast of the batch shapes of ALL operands absorbs EVERY one of
+   them, wherever it stands in the list and however many operands there are: stretching an operand to
+   the result leaves the result unchanged (so no operand's batch dimensions can be missing from it) *)
+Theorem batch_shape_absorbs_every_operand : forall (l : list (list Z)) r,
+  bshapes l = Some r -> forall s, In s l -> bshape s r = Some r.
+Proof. exact bshapes_absorbs. Qed.
+Print Assumptions batch_shape_absorbs_every_operand.
+
+(* it has at least as many batch dimensions as every operand, and (counted from the right) agrees with
+   every operand dimension that is not 1 *)
+Theorem batch_shape_rank : forall (l : list (list Z)) r,
+  bshapes l = Some r -> forall s, In s l -> (List.length s <= List.length r)%nat.
+Proof. exact bshapes_rank. Qed.
+Print Assumptions batch_shape_rank.
+Theorem batch_shape_dims : forall (l : list (list Z)) r,
+  bshapes l = Some r -> forall s k, In s l -> (k < List.length s)%nat ->
+  rdim s k = rdim r k \/ rdim s k = 1%Z.
+Proof. exact bshapes_dims. Qed.
+Print Assumptions batch_shape_dims.
+
+(* broadcasting does not depend on which operand is x1 and which is x2 *)
+Theorem batch_shape_symmetric : forall a b, bshape a b = bshape b a.
+Proof. exact bshape_comm. Qed.
+Print Assumptions batch_shape_symmetric.
+
+(* the operand element that a result element is read from lies inside the operand (reversed shapes /
+   multi-indices, as the model computes them) *)
+Theorem batch_source_in_bounds : forall s r idx k, fits s r -> List.length idx = List.length r ->
+  (forall j, (j < List.length r)%nat -> (0 <= nth j idx 0 < nth j r 1)%Z) ->
+  (k < List.length s)%nat -> (0 < nth k s 1)%Z ->
+  (0 <= nth k (src_rev s idx) 0 < nth k s 1)%Z.
+Proof. exact src_rev_bound. Qed.
+Print Assumptions batch_source_in_bounds.
+
+(* non-vacuity: x1 and the kernel without batch, x2 with batch [3]: the result is [3]; the broadcast of
+   x1 and the kernel alone ([]) does not absorb x2; a mixed pattern x1 [1], x2 [3,1], kernel [2] *)
+Example ex_batch_x2_only :
+  bshapes [[]; [3%Z]; []] = Some [3%Z] /\ bshapes [[]; []] = Some [] /\ bshape [3%Z] [] <> Some [].
+Proof. exact ex_bshapes_x2_only. Qed.
+Example ex_batch_mixed : bshapes [[1%Z]; [3%Z; 1%Z]; [2%Z]] = Some [3%Z; 2%Z].
+Proof. exact ex_bshapes_mixed. Qed.
